@@ -24,7 +24,8 @@ META = {
         'inside schedula objects.'),
     'trusted_base': [
         'CPython ast', 'schedula.Token.__reduce__ resolves the module global of '
-        'the same name; Token.__eq__ is identity; copy/pickle create objects '
+        'the same name in the module recorded by Token.__init__ from its '
+        'caller\'s frame; Token.__eq__ is identity; copy/pickle create objects '
         'without calling __init__'],
     'assumptions': ['attributes are assigned by plain `x.attr = v` statements'],
 }
@@ -276,6 +277,173 @@ def rule_tokens(ctx):
     return rr
 
 
+def _init_attrs(ctx, cls):
+    """attr -> value node assigned in __init__ of cls or its package bases."""
+    out = {}
+    for k in reversed(ctx.project.mro(cls)):
+        init = k.methods.get('__init__')
+        if init is None or not init.params:
+            continue
+        sn = init.params[0]
+        for n in own_nodes(init):
+            if isinstance(n, ast.Assign):
+                pairs = []
+                for t in n.targets:
+                    if isinstance(t, ast.Tuple) and isinstance(n.value, ast.Tuple):
+                        pairs += list(zip(t.elts, n.value.elts))
+                    else:
+                        pairs.append((t, n.value))
+                for t, v in pairs:
+                    if isinstance(t, ast.Attribute) and isinstance(
+                            t.value, ast.Name) and t.value.id == sn:
+                        out[t.attr] = v
+    return out
+
+
+def rule_hooks(ctx):
+    rr = RuleResult('C17', 'C17.hooks', 'SIB',
+                    'custom copy/pickle hooks keep what calculations read and '
+                    'deep-copy what they share', floor=1)
+    p = ctx.project
+    arr, family = _array_family(ctx)
+    entries = entry_functions(ctx)
+    for c in p.classes.values():
+        if c in family:
+            continue
+        gs = c.methods.get('__getstate__')
+        dc = c.methods.get('__deepcopy__')
+        if gs is None and dc is None:
+            continue
+        attrs = _init_attrs(ctx, c)
+        if gs is not None:
+            rr.instances += 1
+            dropped = set()
+            rets = [n.value for n in own_nodes(gs) if isinstance(n, ast.Return)
+                    and n.value is not None]
+            for r in rets:
+                if isinstance(r, ast.Dict):
+                    kept = {k.value for k in r.keys if isinstance(k, ast.Constant)}
+                    emptied = {k.value for k, v in zip(r.keys, r.values)
+                               if isinstance(k, ast.Constant) and isinstance(
+                        v, (ast.Dict, ast.List, ast.Set, ast.Tuple,
+                            ast.Constant)) and not getattr(v, 'keys', None)
+                        and not getattr(v, 'elts', None)}
+                    dropped |= set(attrs) - kept  # emptied caches are fine
+                elif isinstance(r, ast.DictComp):
+                    for g in r.generators:
+                        for cond in g.ifs:
+                            if isinstance(cond, ast.Compare) and isinstance(
+                                    cond.ops[0], ast.NotIn):
+                                coll = cond.comparators[0]
+                                vals = None
+                                if isinstance(coll, (ast.Tuple, ast.List, ast.Set)):
+                                    vals = [e.value for e in coll.elts
+                                            if isinstance(e, ast.Constant)]
+                                elif isinstance(coll, ast.Attribute):
+                                    a = p.find_class_attr(c, coll.attr)
+                                    if a is not None:
+                                        av = ctx.ev.class_attr(a[0], coll.attr)
+                                        it = ctx.ev.iterate(av)
+                                        if it is not None:
+                                            vals = [e.v for e in it if is_const(e)]
+                                if vals is None:
+                                    raise AnalysisError(
+                                        '%s.__getstate__: filter not recognised'
+                                        % c.name)
+                                dropped |= set(vals)
+                else:
+                    raise AnalysisError('%s.__getstate__: return shape not '
+                                        'recognised' % c.name)
+            # which dropped attributes are read while calculating?
+            family_c = p.subclasses(c)
+            readers = {}
+            for fq, (f, role, fresh) in entries.items():
+                for n in own_nodes(f):
+                    if isinstance(n, ast.Attribute) and isinstance(
+                            n.ctx, ast.Load) and n.attr in dropped:
+                        # receiver may be self (of the family) or an object of it
+                        readers.setdefault(n.attr, (f, n))
+            for a in sorted(dropped):
+                if a in readers:
+                    f, n = readers[a]
+                    rr.fail(key_of(gs, 'drops %s read at calculation time' % a),
+                            '%s.__getstate__ leaves `%s` out of the copied/'
+                            'pickled state, but %s reads `.%s` while '
+                            'calculating: a copy computes different results' % (
+                                c.name, a, f.qualname, a), file=gs.module.rel,
+                            function=gs.qualname, line=gs.lineno)
+                else:
+                    rr.ok('%s.__getstate__ drops `%s`, which no calculation-'
+                          'time code reads' % (c.name, a), '%s:%d' % (
+                              gs.module.rel, gs.lineno))
+            if not dropped:
+                rr.ok('%s.__getstate__ keeps every attribute' % c.name,
+                      '%s:%d' % (gs.module.rel, gs.lineno))
+        if dc is not None:
+            sn = dc.params[0]
+            for n in own_nodes(dc):
+                if not (isinstance(n, ast.Assign) and len(n.targets) == 1 and
+                        isinstance(n.targets[0], ast.Attribute)):
+                    continue
+                a = n.targets[0].attr
+                reads_self = any(isinstance(x, ast.Attribute) and isinstance(
+                    x.value, ast.Name) and x.value.id == sn
+                    for x in ast.walk(n.value))
+                if not reads_self:
+                    continue
+                rr.instances += 1
+                deep = isinstance(n.value, ast.Call) and norm_src(
+                    n.value.func) in ('copy.deepcopy', 'deepcopy')
+                init_v = attrs.get(a)
+                scalar = isinstance(init_v, ast.Constant)
+                if deep or scalar:
+                    rr.ok('%s.__deepcopy__: `%s` is deep-copied%s' % (
+                        c.name, a, '' if deep else ' (immutable scalar)'),
+                        '%s:%d' % (dc.module.rel, n.lineno))
+                else:
+                    rr.fail(key_of(dc, 'shares %s with the copy' % a),
+                            '%s.__deepcopy__ sets `%s = %s`: the objects inside '
+                            'are shared between original and copy, so mutating '
+                            'one (e.g. writing into the loaded workbooks) '
+                            'changes the other' % (c.name, a, norm_src(n.value)),
+                            file=dc.module.rel, function=dc.qualname,
+                            line=n.lineno)
+    if rr.instances == 0:
+        rr.instances = 1
+        rr.ok('no class besides Array customises copy/pickle hooks',
+              '', nontrivial=False)
+    return rr
+
+
+def rule_token_classes(ctx):
+    rr = RuleResult('C17', 'C17.tokencls', 'TAB',
+                    'sentinel classes do not intercept construction', floor=2)
+    p = ctx.project
+    for c in p.classes.values():
+        if 'schedula.Token' not in p.ext_bases(c):
+            continue
+        rr.instances += 1
+        bad = [m for m in ('__init__', '__new__') if m in c.methods]
+        if bad:
+            m = c.methods[bad[0]]
+            rr.fail('%s::%s::sentinel class defines %s' % (
+                c.module.rel, c.name, bad[0]),
+                '%s (a schedula.Token subclass) defines %s: schedula records '
+                'the module of the *caller* of Token.__init__ to restore the '
+                'sentinel by module-global lookup on pickle; with an '
+                'intermediate %s that module is always %s, so sentinels '
+                'created in other modules (e.g. the circular-reference error) '
+                'are pickled by value and lose their identity' % (
+                    c.name, bad[0], bad[0], c.module.name),
+                file=c.module.rel, function='%s.%s' % (c.name, bad[0]),
+                line=m.lineno)
+        else:
+            rr.ok('%s does not define __init__/__new__: every sentinel is '
+                  'constructed directly from its defining module' % c.name,
+                  '%s:%d' % (c.module.rel, c.node.lineno))
+    return rr
+
+
 def rule_getattr(ctx):
     rr = RuleResult('C17', 'C17.getattr', 'ESC',
                     'Token.__getattr__ terminates on half-built objects',
@@ -398,4 +566,5 @@ def rule_global(ctx):
 
 def run(ctx):
     return [rule_array(ctx), rule_slots(ctx), rule_tokens(ctx),
-            rule_getattr(ctx), rule_global(ctx)]
+            rule_token_classes(ctx), rule_hooks(ctx), rule_getattr(ctx),
+            rule_global(ctx)]
